@@ -2,6 +2,8 @@
 from __future__ import annotations
 
 import json
+import os
+import time
 from typing import List, Optional, Tuple
 
 from harness.lib.core import VERIF, Ctx, lean_lock, run_driver, shrink_ops
@@ -24,15 +26,20 @@ MANIFEST = {
             "command moves the clock of exactly the session it travels on (a local session's clock never moves); a password change ends "
             "every session of the user; an enabled admin always remains, whichever of the five account editors is used, accounts are never "
             "removed / renamed / demoted / overwritten, and any configured user list starts with an enabled admin; the session limit is "
-            "never exceeded and a login succeeds again once a session ended; in reachable states a session id has one client connection "
+            "never exceeded and a login succeeds again once a session ended; a local command / local login changes nothing unless the "
+            "credentials supplied WITH it are the current password of an enabled account (also while that user is logged in, after "
+            "disable, after a password change; a disabled account stays refused until enable_user); closed forms over any nesting depth "
+            "for commands, for new sessions and for which session's clock moved; in reachable states a session id has one client connection "
             "and after a client logoff no node but the target holds it; the disconnect recursion never exhausts its fuel. Tie: constants, "
             "comparison operators, guard shapes, the time-out decisions per session kind, every write to last_active_step and every "
             "account-editing statement / caller / request in the package regenerated from the source (Gen/Session.lean, obligations "
             "C16_gen_*), the requests really registered on a built node, + differential rig R-sess (2-3 real Computers on a Switch or "
-            "behind a Router whose ACL blocks single directions) comparing every answer and the whole session state after every "
+            "behind one Router or two Routers in a chain whose ACLs block single directions, which are powered off / on and whose ARP "
+            "caches are emptied mid-session) comparing every answer and the whole session state after every "
             "operation, plus the property's own oracle on the implementation.",
     "note": "C16-specific: whatever lies between two hosts is abstracted to per-direction reachability flags (Net.blocked, driven by DENY "
-            "rules for the address pair / tcp 22 on a real router in the rig; ARP-level blocks and router power are not driven) plus 'both NICs "
+            "rules for the address pair / tcp 22 and by the power state of one or two real routers in the rig; ARP frames are exempt from "
+            "a router's ACL, so there is no ARP-level block to drive; switches in between and link saturation are not driven) plus 'both NICs "
             "enabled and the receiver's terminal RUNNING'; on the routed topology a host reaches itself through its gateway (Net.hairpin); "
             "a terminal command carries any node request (file creation with a fresh name, user-manager requests, service / power "
             "requests, the direct user-session-manager requests, and terminal requests towards a further node, nested to any depth); "
@@ -42,7 +49,8 @@ MANIFEST = {
     "design_ref": "5/C16",
 }
 MODULES = ["PrimaiteModel.Props.C16", "PrimaiteModel.Props.C16Conn", "PrimaiteModel.Props.C16Transport",
-           "PrimaiteModel.Props.C16Timeout", "PrimaiteModel.Props.C16Admin"]
+           "PrimaiteModel.Props.C16Timeout", "PrimaiteModel.Props.C16Admin", "PrimaiteModel.Props.C16Local",
+           "PrimaiteModel.Props.C16Chain"]
 EXE = "drv_c16"
 
 
@@ -117,6 +125,43 @@ def _runtime_inventory(ctx: Ctx):
                editors == ["add_user", "authenticate_user", "change_user_password", "disable_user", "enable_user"], str(editors))
 
 
+def _sample(rng, items: list, k: int):
+    """`k` of the items (all when k >= len), seeded, in their original order, with their original index"""
+    idx = list(range(len(items)))
+    if k < len(items):
+        idx = sorted(rng.shuffle(idx)[:k])
+    return [(i, items[i]) for i in idx]
+
+
+def _run_impl_chunk(chunk: List[dict]):
+    return [rig.run_impl(c) for c in chunk]
+
+
+def _run_impl_all(case_list: List[dict]):
+    """The implementation side of every trace.  Building the real nodes is > 90 % of the cost of a trace (pydantic construction of
+    ~13 software objects per node), and a third of that is the cyclic garbage collector walking the freshly built object graphs:
+    collect rarely while the rig runs, and spread the traces over a few forked workers (C16_WORKERS, default 3; results are
+    position-ordered, every trace is independent, so the outcome does not depend on the scheduling)."""
+    import gc
+    import multiprocessing as mp
+    workers = max(1, int(os.environ.get("C16_WORKERS", "3")))
+    old = gc.get_threshold()
+    gc.collect()
+    gc.freeze()
+    gc.set_threshold(50000, 20, 20)
+    try:
+        if workers == 1 or len(case_list) < 200:
+            return _run_impl_chunk(case_list)
+        size = 64
+        chunks = [case_list[i:i + size] for i in range(0, len(case_list), size)]
+        with mp.get_context("fork").Pool(workers) as pool:
+            out = pool.map(_run_impl_chunk, chunks, chunksize=1)
+        return [r for ch in out for r in ch]
+    finally:
+        gc.set_threshold(*old)
+        gc.unfreeze()
+
+
 def run(ctx: Ctx):
     with lean_lock():
         ctx.extract(x_session.GEN_NAME, x_session.emit)
@@ -163,14 +208,37 @@ def run(ctx: Ctx):
     # the session core of the first family once more on the routed topology (nothing blocked: must behave like the switch)
     for k, c in enumerate(rig.exhaustive_cases(dict(base_cfg, topo="routed"), [login], ctx.scale(2, 3), core)):
         cases.append((f"exhcore-routed:{k}", c))
+    # below IP: two routers in a chain; router power, ARP "denied" + caches emptied (a decoy: ARP is exempt from the ACL), caches
+    # cleared, the reply direction blocked at the far router — mid-session
+    cfgm = dict(base_cfg, topo="routed2", max=2)
+    for k, c in enumerate(rig.exhaustive_cases(cfgm, [login], 3, rig.medium_alphabet())):
+        cases.append((f"exhmedium:1:{k}", c))
+    for k, c in enumerate(rig.exhaustive_cases(cfgm, [], 2, rig.medium_alphabet())):
+        cases.append((f"exhmedium:0:{k}", c))
+    # a node commanding itself through its gateway
+    cfgs = dict(base_cfg, topo="routed", su=0, sd=0)
+    for k, c in enumerate(rig.exhaustive_cases(cfgs, [dict(rig.self_alphabet()[0])], 3, rig.self_alphabet())):
+        cases.append((f"exhself:{k}", c))
+    # the local command path: every sequence of three operations of the local alphabet (quick: a seeded sample of the largest families)
+    fam_rng = ctx.rng.fork("families")
+    local_all = list(rig.exhaustive_cases(base_cfg, rig.LOCAL_PREFIX, 3, rig.local_alphabet()))
+    for k, c in _sample(fam_rng, local_all, len(local_all)):
+        cases.append((f"exhlocal:{k}", c))
+    if ctx.thorough:   # depth 4: a seeded sample of 6 000 out of 14 641 sequences for each of the two newest families
+        for k, c in _sample(fam_rng, list(rig.exhaustive_cases(base_cfg, rig.LOCAL_PREFIX, 4, rig.local_alphabet())), 6000):
+            cases.append((f"exhlocal4:{k}", c))
+        for k, c in _sample(fam_rng, list(rig.exhaustive_cases(cfgm, [login], 4, rig.medium_alphabet())), 6000):
+            cases.append((f"exhmedium4:{k}", c))
     rng = ctx.rng.fork("sess")
     for k in range(ctx.scale(500, 6000)):
         cases.append((f"gen:{k}", rig.gen_case(rng, max_ops=ctx.scale(30, 60))))
 
     # implementation side, then ONE driver run for all cases
     impl_all, lines_all, bounds, aux = [], [], [], []
-    for name, case in cases:
-        impl, snaps, stats = rig.run_impl(case)
+    t_impl = time.time()
+    results = _run_impl_all([c for _, c in cases])
+    ctx.cov["impl_side_wall_s"] = round(time.time() - t_impl, 1)
+    for (name, case), (impl, snaps, stats) in zip(cases, results):
         lines = rig.model_lines(case)
         bounds.append((len(lines_all), len(lines)))
         lines_all += lines
@@ -192,6 +260,9 @@ def run(ctx: Ctx):
         ctx.case(case, opened and refused)
         ctx.count("family:" + name.split(":")[0])
         ctx.count("topology:" + case["cfg"].get("topo", "switch"))
+        for o in case["ops"]:
+            if o["op"] in rig.MEDIUM_OPS:
+                ctx.count("medium:" + o["op"] + (":" + o.get("how", "pair") if o["op"] == "block" else ""))
         if any(sn.get("blk") for sn in snaps):
             ctx.count("traces-with-a-blocked-direction")
         for q, a in zip(lines[2:], answers):
